@@ -1,6 +1,7 @@
 package core
 
 import (
+	"context"
 	"encoding/hex"
 	"encoding/json"
 	"fmt"
@@ -571,6 +572,38 @@ func TestC04Programs(t *testing.T) {
 			main = append(main, 0x00)
 		}
 		main = append(main, 0x76)
+		selfmod := false
+		if rapid.IntRange(0, 3).Draw(t, "patchedJump") == 0 {
+			// the patched-jump idiom: a JP/CALL nn (or JP cc / JR) whose operand the program rewrites before
+			// executing the very same instruction again
+			//   org:  JP A            A:  [POP DE]; LD HL,B; LD (org+1),HL; JP org      B: [POP DE]; CALL sub; HALT
+			selfmod = true
+			a, b := st.PC+0x10, st.PC+0x20
+			kind := rapid.IntRange(0, 3).Draw(t, "pjKind")
+			main = make([]int, 0x2a)
+			pop := 0x00
+			switch kind {
+			case 0:
+				main[0], main[1], main[2] = 0xC3, int(a&0xff), int(a>>8)
+			case 1:
+				main[0], main[1], main[2] = 0xCD, int(a&0xff), int(a>>8)
+				pop = 0xD1
+			case 2: // JP cc with a condition that holds in the drawn flags (LD/JP do not change them)
+				cc := rapid.IntRange(0, 7).Draw(t, "cc")
+				if !c04Cond(cc, st.F) {
+					cc ^= 1
+				}
+				main[0], main[1], main[2] = 0xC2|cc<<3, int(a&0xff), int(a>>8)
+			default: // JR e: the displacement byte is what gets patched (L is stored at org+1, H lands on the NOP at org+2)
+				main[0], main[1], main[2] = 0x18, 0x10-2, 0x00
+			}
+			patch := []int{pop, 0x21, int(b & 0xff), int(b >> 8), 0x22, int((st.PC + 1) & 0xff), int((st.PC + 1) >> 8), 0xC3, int(st.PC & 0xff), int(st.PC >> 8)}
+			if kind == 3 {
+				patch[2], patch[3] = 0x20-2, 0x00
+			}
+			copy(main[0x10:], patch)
+			copy(main[0x20:], []int{pop, 0xCD, int(sub & 0xff), int(sub >> 8), 0x00, 0x00, 0x00, 0x00, 0x00, 0x76})
+		}
 		// body
 		var body []int
 		n := rapid.IntRange(0, 5).Draw(t, "nbody")
@@ -612,7 +645,7 @@ func TestC04Programs(t *testing.T) {
 			body = append(body, 0xC0|rapid.IntRange(0, 7).Draw(t, "cc2")<<3)
 		}
 		body = append(body, 0xC9)
-		c := soupCase{St: st, Code: main, MemSeed: d.memSeed, IOSeed: d.ioSeed, Fill: 0, IOFill: d.ioFill, Steps: 40}
+		c := soupCase{St: st, Code: main, MemSeed: d.memSeed, IOSeed: d.ioSeed, Fill: 0, IOFill: d.ioFill, Steps: 72}
 		for i, b := range body {
 			c.Actions = append(c.Actions, soupAction{AtStep: 0, Kind: "poke", Addr: sub + uint16(i), Val: b})
 		}
@@ -624,6 +657,17 @@ func TestC04Programs(t *testing.T) {
 		}
 		if trunc {
 			col.Label("truncated")
+		}
+		if selfmod && !trunc {
+			col.Label("patched-jump-idiom")
+		}
+		if !trunc && rig.parked {
+			// the same program once more from the start, driven by Run this time: it must end where the
+			// Step-driven run (which agreed with the model at every Step) ended
+			if m := rig.runTwin(&c, steps); m != "" {
+				violation(t, "C04", "c04run", c, "reference model via lock-step, then the same program under Run", m)
+			}
+			col.Label("run-twin-compared")
 		}
 		rets := 0
 		for _, cl := range classes {
@@ -647,4 +691,75 @@ func TestC04Programs(t *testing.T) {
 			}
 		}
 	})
+}
+
+// runTwin runs the program of a case that the lock-step run has just brought to a HALT once more from its initial
+// state, with CPU.Run on a fresh CPU and memory, and compares the end with the end of the lock-step run. A Run that
+// makes more accesses than any run of that many Steps could is cancelled from inside the memory (no clock involved).
+func (r *lockRig) runTwin(c *soupCase, steps int) string {
+	for _, a := range c.Actions {
+		if a.AtStep != 0 || a.Kind != "poke" {
+			return ""
+		}
+	}
+	if len(c.Intr) > 0 || r.mReq != nil || r.cpu.Interrupt != nil {
+		return ""
+	}
+	if r.rb == nil {
+		r.rb = bus.New()
+	}
+	r.rb.Reset(c.MemSeed, c.IOSeed, c.Fill, c.IOFill)
+	r.rb.NoLog = true
+	for i, b := range c.Code {
+		r.rb.Poke(c.St.PC+uint16(i), uint8(b))
+	}
+	for _, a := range c.Actions {
+		r.rb.Poke(a.Addr, uint8(a.Val))
+	}
+	var rc z80.CPU
+	rc.Memory, rc.IO = r.rb, r.rb
+	st := c.St
+	eng.ToCPU(&st, &rc)
+	ctx, cancel := context.WithCancel(context.Background())
+	defer cancel()
+	budget := steps*64 + 256
+	over := false
+	r.rb.Hook = func(n int, _ bus.Access) {
+		if n > budget && !over {
+			over = true
+			cancel()
+		}
+	}
+	err := rc.Run(ctx)
+	r.rb.Hook = nil
+	if over {
+		return fmt.Sprintf("under Run the program does not reach the HALT that %d Steps reach at PC=%04x (cancelled after %d accesses at PC=%04x)", steps, r.cpu.PC, budget, rc.PC)
+	}
+	if err != nil {
+		return fmt.Sprintf("Run returned %v, %d Steps end halted at PC=%04x", err, steps, r.cpu.PC)
+	}
+	rc.IR.Lo = r.cpu.IR.Lo // the lock-step run went on stepping the HALT; refresh counting is C14's and C08's business
+	if rc.States != r.cpu.States {
+		g, w := eng.FromCPU(&rc), eng.FromCPU(&r.cpu)
+		return fmt.Sprintf("Run ends elsewhere than %d Steps: %s", steps, fmtStateDiff(&g, &w))
+	}
+	if ok, a := bus.EqualDirty(r.rb, r.mb); !ok {
+		return fmt.Sprintf("after Run mem[%04x]=%02x, after %d Steps %02x", a, r.rb.Peek(a), steps, r.mb.Peek(a))
+	}
+	return ""
+}
+
+func init() {
+	replayers["c04run"] = func(prop string, raw json.RawMessage) (string, error) {
+		var c soupCase
+		if err := json.Unmarshal(raw, &c); err != nil {
+			return "", err
+		}
+		rig := newLockRig()
+		m, steps, trunc, _ := soupLockstep(rig, &c, map[string]bool{eng.KState: true, eng.KFlags: true, eng.KMemImg: true})
+		if m != "" || trunc || !rig.parked {
+			return m, nil
+		}
+		return rig.runTwin(&c, steps), nil
+	}
 }
